@@ -156,6 +156,8 @@ def describe(c):
     parts = [c["kind"]] + [r for r in RES + FLAGS if c[r]]
     parts += [f"{k}={c[k]}" for k in SCRIPT_ORDER if c[k] not in ("ok", "started")]
     w = c["world"]
+    if c.get("dbclose"):
+        parts.append("dbclose=" + c["dbclose"])
     if c["f_tpStop"] == "cancel" and (c.get("how") or {}).get("tpStop") == "on-entry":
         parts.append("ctrl-c-before-the-tester-present-task-is-awaited")
     if w["lock"] != "free":
@@ -394,6 +396,16 @@ def build_cases(ctx):
     ctx.exhaustive_parts.append(
         f"full matrix: 3 command kinds x 2^4 resource combinations x ({len(scripts)} scripts = all-ok + 8 exit kinds x 4 "
         "lifecycle points + pre / post / both hooks failing + database cannot be opened)")
+    # 1b. a fault at the "db close" point (the disconnect() in the finally block fails, or Ctrl-C is delivered at its await): it is
+    #     contained - the run ends exactly as without it (the model does not even know the field)
+    for kind in KINDS:
+        for res in ("0010", "1111", "0110"):
+            for s in ({}, {"main": "exit:3"}, {"main": "conn"}, {"setup": "other"}, {"tdPost": "kbd"}):
+                for f in ("cancel", "raise"):
+                    c = pick_how(rng, mk(kind, res, **s))
+                    c["dbclose"] = f
+                    cases.append(("db-close-fault", c))
+    ctx.exhaustive_parts.append("db close faults: 3 kinds x 3 resource combinations with a database x 5 scripts x {disconnect raises, Ctrl-C at disconnect}")
     # 2. every concrete exception class / way of cancelling / non-int exit code, everything switched on
     for kind in KINDS:
         for p in (POINTS if full else ["main"]):
